@@ -265,7 +265,8 @@ PROPS["C04"] = {
             "delay, hold time, optional copy of the read wrapper released later x optional early destruction of the mutex x schedule tape "
             "with decision points in add_op_state (before the CAS) and done() (around the exchange); non-trivial iff >=2 access groups and "
             "(a read group with >=2 reads or an unstarted drop) and the schedule really interleaved the threads; distinct by hash. Second target "
-            "(real OS threads, E-stress): request sequence of length 2..8 issued in order by the main thread x per request one of 2..4 std::threads "
+            "(real OS threads, E-stress): async_rw_mutex<int> or (1 case in 3) the separately implemented async_rw_mutex<void> x request sequence of "
+            "length 2..8 issued in order by the main thread x per request one of 2..4 std::threads "
             "that starts it (or drops it unstarted), hold time, optional wrapper copy x 300..3000 rounds on a fresh mutex with the generated start "
             "skews swept; oracle: occupancy counters (read-write alone, reads only with reads), at grant time every started access of every earlier "
             "group has been released (bookkeeping before the wrapper is destroyed), value == number of earlier started read-write accesses, every "
